@@ -207,6 +207,11 @@ pub fn merge_spec_pos(name: &str, rewrite: Option<(bool, usize)>, kata_pos: [&'s
     // a numeral written full-width whose normalised form is what the plugin would produce anyway:
     // standing alone it is not part of any merge
     s.system.push(Row::new("3", 9, 9, 2400, P_NUM).headword("３").norm("3"));
+    // a numeral of two digits that declares its digits as units: in modes A / B it is split when it stands alone,
+    // a numeral joined from it and further digits is one token in every mode
+    let i0 = s.system.iter().position(|r| r.surface == "0").expect("0");
+    let i1 = s.system.iter().position(|r| r.surface == "1").expect("1");
+    s.system.push(Row::new("10", 9, 9, 1500, P_NUM).splits("C", &format!("{}/{}", i1, i0), &format!("{}/{}", i1, i0)));
     // (the sibling of the conjugating part of speech P_VERB_B: `行く` carries P_VERB and comes first)
     s.system.push(Row::new("行っ", 1, 1, 5122, P_VERB_B));
     // words of a user dictionary take part in merges and are left alone like any other
